@@ -38,10 +38,14 @@ RULE = (
     "setter / via copy() / default calibration), float and complex data come in scale families (plain, amplitude 1e+8, 1e-8, weak contrast on a pedestal 1e3..1e6 in single and "
     "1e9..1e12 in double precision), and every library call of 4 in 8 cases runs under process-global state a user may have set (numpy errstate raise, torch default dtype "
     "float64 + grad disabled, numpy print options, quantem config dtype float64), restored afterwards; neutral calls (repr, str, discarded copy / index, property reads, "
-    "reductions, calibration written back) are interleaved and must change nothing"
+    "reductions, calibration written back) are interleaved and must change nothing."
+    " Coordinates far from the origin: 3 in 10 datasets (half of the big ones) put the origin of one or more axes 1e3 .. 1e12 fields of view away from zero, "
+    "either sign, whole numbers and binary fractions (UNIX-time frame axis with ms frames, stage position in nm with sub-Angstrom pixels), in every "
+    "calibration form; all calibration laws are judged per axis -- extent and sampling relative to themselves, centre / origin / block centres relative "
+    "to |origin| + extent of that axis"
 )
 ASSUMPTIONS = [
-    "float64 / complex128 / integer inputs are judged at 1e-10 relative to the data (or coordinate) scale; float32 / complex64 inputs, for which "
+    "float64 / complex128 / integer inputs are judged at 1e-10 relative to the data scale; float32 / complex64 inputs, for which "
     "the library's arithmetic runs in single precision, at 5e-5 (bin, mean) / 2e-4 (resample content), >= 300x the measured single-precision noise",
     "integer block sums are compared exactly (Python integers); magnitudes are bounded by 2**40 so that int64 accumulators cannot overflow",
     "the explicit-DFT oracle judges spectral *amplitudes* strictly inside the common band and zeros strictly beyond the input band; the Nyquist bins "
@@ -58,6 +62,10 @@ ASSUMPTIONS = [
     "expected results do not depend on memory layout, ownership (read-only input), construction route or process-global state; on /repo none of these forms raises",
     "axes=np.int64(k) (a bare NumPy integer, not inside a tuple) raises TypeError on /repo and is not generated; tuples / lists of NumPy integers are",
     "scale families are judged relative to max|data| like every other case (pedestal cases therefore test accumulation precision, not contrast recovery)",
+    "calibration arithmetic is float64 whatever the data dtype (float32 calibration arrays are not generated: the library would then do the centre "
+    "arithmetic in single precision). Per axis, extent N*sampling and sampling are judged at 1e-12 relative to themselves (they do not depend on where "
+    "the axis sits), origin / centre / block-centre coordinates at 1e-12 .. 1e-11 relative to |origin| + extent; measured floor of the unchanged code "
+    "over origin/extent ratios up to 1e12: 3.5e-16 for every one of them",
     "class 7 of the widening list (containers with mixed members) does not apply: the Dataset operations take one array",
 ]
 BUDGET = {"quick": {"soft_s": 300}, "thorough": {"soft_s": 1200}}
@@ -73,6 +81,9 @@ KINDS = [("bin", 8), ("rs_laws", 6), ("rs_linear", 3), ("rs_identity", 2), ("rs_
 DKINDS = ["int", "float", "complex"]
 TOL = {"64": 1e-10, "32": 5e-5}  # measured floors: 64-bit paths <= 1e-15, float32 bin/mean 1.5e-7
 TOL_RS = {"64": 1e-10, "32": 2e-4}  # float32 resample content: measured 6.4e-7
+# calibration (float64 arithmetic whatever the data dtype), PER AXIS: sampling / extent relative to themselves, coordinates relative to
+# |origin| + extent of the axis.  Measured on the unchanged code over near and far (origin/extent 1e3..1e12) axes: see evidence residuals
+CAL_TOL = 1e-12
 
 
 def plan(tier, seed):
@@ -115,6 +126,10 @@ def _make(ctx, rng, arr):
     o, s, units = G.rand_calibration(rng, nd)
     data, lay = G.layout(rng, arr)
     form = CONSTRUCT_FORMS[int(rng.integers(len(CONSTRUCT_FORMS)))]
+    frng = _side_rng(rng, 0xFA4)
+    far = None
+    if form != "default_calibration" and frng.random() < FAR_P:
+        o, far = _far_origin(frng, o, s, arr.shape)
     if form == "from_shape_then_array_setter" and not hasattr(C, "from_shape"):
         form = "bare_then_setters"
     if form == "from_array":
@@ -134,7 +149,8 @@ def _make(ctx, rng, arr):
         ds.units = units
         ds.sampling = s
         ds.origin = o
-    ctx.state["last_make"] = {"layout": lay, "construct": form}
+    ctx.state["last_make"] = {"layout": lay, "construct": form, "far_origin_log10": far}
+    ctx.count("far_origin:" + ("no" if far is None else "1e%d" % (3 * int(far // 3))))
     ctx.count("layout:" + lay)
     ctx.count("construct:" + form)
     return ds
@@ -165,6 +181,51 @@ def _m(name, prec):
 
 def _cal(ds):
     return np.asarray(ds.origin, dtype=np.float64).copy(), np.asarray(ds.sampling, dtype=np.float64).copy()
+
+
+def _side_rng(rng, salt):
+    """a generator derived from the current state of `rng` WITHOUT advancing it (the later draws of the case stay what they were)"""
+    st = int(rng.bit_generator.state["state"]["state"])
+    return np.random.default_rng([st & (2**64 - 1), st >> 64, int(salt)])
+
+
+FAR_P = 0.3  # share of datasets whose coordinates lie far from the origin
+
+
+def _far_origin(rng, o, s, shape):
+    """Class 'coordinates far from the origin': the origin of (some of) the axes is 1e3 .. 1e12 fields of view away from zero, either
+    sign (UNIX-time frame axis with ms frames, stage position in nm with sub-Angstrom pixels).  The container / number type of the
+    drawn calibration form is kept (float64 array, list of floats, list of ints, tuple, scalar); float32 arrays are never produced.
+    Returns (origin, log10 of the largest |origin| / extent ratio)."""
+    nd = len(shape)
+    s_ax = np.broadcast_to(np.asarray(s, dtype=np.float64), (nd,))
+    ext = np.abs(s_ax) * np.maximum(1, np.asarray(shape, dtype=np.float64))
+    pick = rng.random(nd) < 0.6
+    pick[int(rng.integers(nd))] = True
+    lg = rng.uniform(3.0, 12.0, size=nd)
+    sign = np.where(rng.random(nd) < 0.5, -1.0, 1.0)
+    far = sign * 10.0**lg * ext
+    whole = rng.random(nd) < 0.5  # 1.7e9-like whole numbers and arbitrary binary fractions
+    far = np.where(whole, np.round(far), far)
+    if np.isscalar(o):  # one origin broadcast to every axis: far relative to the largest field of view
+        v = float(sign[0] * 10.0 ** lg[0] * float(np.max(ext)))
+        v = float(np.round(v)) if whole[0] else v
+        return (int(v) if isinstance(o, (int, np.integer)) and abs(v) < 2**53 else v), float(lg[0])
+    new = np.where(pick, far, np.asarray(o, dtype=np.float64))
+    lgmax = float(np.max(lg[pick]))
+    if isinstance(o, np.ndarray):
+        return new.astype(np.float64), lgmax
+    ints = all(isinstance(x, (int, np.integer)) for x in o)
+    vals = [int(np.round(x)) if (ints and abs(x) < 2**53) else float(x) for x in new]
+    return (tuple(vals) if isinstance(o, tuple) else vals), lgmax
+
+
+def _ax_scales(o0, s0, shape):
+    """per-axis scales: coordinate magnitude |origin| + extent, extent N*sampling, sampling.  The extent and the sampling of an axis do
+    not depend on where the axis sits, so they are judged relative to themselves; coordinates relative to the coordinate magnitude."""
+    N = np.maximum(1.0, np.asarray(shape, dtype=np.float64))
+    ext = np.abs(s0) * N
+    return np.abs(o0) + ext, ext, np.abs(s0)
 
 
 def _scale(a):
@@ -273,12 +334,13 @@ def _judge_bin(ctx, a, o0, s0, res, a2f, reducer, prec, fields, what):
     if len(o1) != len(shape) or len(s1) != len(shape):
         return
     # --- calibration laws (analytic) ---
-    cscale = float(np.max(np.abs(o0)) + np.max(np.abs(s0) * np.array(shape)))
+    # per axis: sampling relative to the sampling, coordinates relative to the coordinate magnitude |origin| + extent of that axis
+    cs, es, ss = _ax_scales(o0, s0, shape)
     exp_s = np.array([s0[i] * a2f.get(i, 1) for i in range(len(shape))])
-    ctx.close(float(np.max(np.abs(s1 - exp_s))) / cscale, 1e-12, "bin_sampling", lambda: "%s: sampling %r -> %r, expected %r" % (what(), s0.tolist(), s1.tolist(), exp_s.tolist()), **fields)
+    ctx.close(float(np.max(np.abs(s1 - exp_s) / np.abs(exp_s))), CAL_TOL, "bin_sampling", lambda: "%s: sampling %r -> %r, expected %r" % (what(), s0.tolist(), s1.tolist(), exp_s.tolist()), **fields)
     # origin = mean coordinate of the first block (explicit mean over the block's pixel coordinates)
     exp_o = np.array([np.mean(o0[i] + s0[i] * np.arange(a2f.get(i, 1))) for i in range(len(shape))])
-    ctx.close(float(np.max(np.abs(o1 - exp_o))) / cscale, 1e-12, "bin_origin", lambda: "%s: origin %r -> %r, expected %r" % (what(), o0.tolist(), o1.tolist(), exp_o.tolist()), **fields)
+    ctx.close(float(np.max(np.abs(o1 - exp_o) / cs)), CAL_TOL, "bin_origin", lambda: "%s: origin %r -> %r, expected %r" % (what(), o0.tolist(), o1.tolist(), exp_o.tolist()), **fields)
     # every block centre keeps its physical coordinate
     worst = 0.0
     for i in range(len(shape)):
@@ -289,8 +351,8 @@ def _judge_bin(ctx, a, o0, s0, res, a2f, reducer, prec, fields, what):
         j = np.arange(nb)
         old = np.array([np.mean(o0[i] + s0[i] * (jj * f + np.arange(f))) for jj in j])
         new = o1[i] + s1[i] * j
-        worst = max(worst, float(np.max(np.abs(old - new))))
-    ctx.close(worst / cscale, 1e-11, "bin_block_centre", lambda: "%s: block-centre coordinate moved" % what(), **fields)
+        worst = max(worst, float(np.max(np.abs(old - new))) / cs[i])
+    ctx.close(worst, 10 * CAL_TOL, "bin_block_centre", lambda: "%s: block-centre coordinate moved" % what(), **fields)
     if not ok_shape:
         return
     # --- block values ---
@@ -387,17 +449,19 @@ def _rs_calibration_laws(ctx, o0, s0, shape, res, axes, fields, what):
         return
     M = tuple(res.shape)
     N = np.array(shape, dtype=np.float64)
-    cscale = float(np.max(np.abs(o0)) + np.max(np.abs(s0) * N))
+    # per axis: the centre is a coordinate (judged relative to |origin| + extent of that axis), the extent does not depend on the origin
+    # and is judged relative to itself -- also when the axis sits 1e3 .. 1e12 fields of view away from zero
+    cs, es, ss = _ax_scales(o0, s0, shape)
     c0 = o0 + (N - 1) / 2.0 * s0
     c1 = o1 + (np.array(M, dtype=np.float64) - 1) / 2.0 * s1
-    ctx.close(float(np.max(np.abs(c1 - c0))) / cscale, 1e-11, "rs_centre", lambda: "%s: centre %r -> %r" % (what(), c0.tolist(), c1.tolist()), **fields)
+    ctx.close(float(np.max(np.abs(c1 - c0) / cs)), 10 * CAL_TOL, "rs_centre", lambda: "%s: centre %r -> %r" % (what(), c0.tolist(), c1.tolist()), **fields)
     e0 = N * s0
     e1 = np.array(M, dtype=np.float64) * s1
-    ctx.close(float(np.max(np.abs(e1 - e0))) / cscale, 1e-11, "rs_extent", lambda: "%s: extent %r -> %r" % (what(), e0.tolist(), e1.tolist()), **fields)
+    ctx.close(float(np.max(np.abs(e1 - e0) / es)), CAL_TOL, "rs_extent", lambda: "%s: extent %r -> %r (origin %r)" % (what(), e0.tolist(), e1.tolist(), o0.tolist()), **fields)
     rest = [i for i in range(nd) if i not in axes]
     if rest:
-        d = max(float(np.max(np.abs(o1[rest] - o0[rest]))), float(np.max(np.abs(s1[rest] - s0[rest]))))
-        ctx.close(d / cscale, 1e-12, "rs_untouched_axis_calibration", lambda: "%s: calibration of a non-resampled axis changed" % what(), **fields)
+        d = max(float(np.max(np.abs(o1[rest] - o0[rest]) / cs[rest])), float(np.max(np.abs(s1[rest] - s0[rest]) / ss[rest])))
+        ctx.close(d, CAL_TOL, "rs_untouched_axis_calibration", lambda: "%s: calibration of a non-resampled axis changed" % what(), **fields)
 
 
 def _judge_rs_laws(ctx, a, o0, s0, res, axes, prec, fields, what):
@@ -556,8 +620,8 @@ def _case_rs(spec, idx, ctx):
         out = np.asarray(back.array)
         ctx.close(float(np.max(np.abs(out.astype(np.complex128) - x.astype(np.complex128)))) / _scale(x), tolc, _m("rs_updown", prec), lambda: "%s: up %s then down did not return the original" % (what(), up_shape), **fields)
         o1, s1 = _cal(back)
-        cscale = float(np.max(np.abs(o0)) + np.max(np.abs(s0) * np.array(shape)))
-        ctx.close(max(float(np.max(np.abs(o1 - o0))), float(np.max(np.abs(s1 - s0)))) / cscale, 1e-11, "rs_updown_calibration", lambda: "%s: calibration after up->down %r/%r vs %r/%r" % (what(), o1.tolist(), s1.tolist(), o0.tolist(), s0.tolist()), **fields)
+        cs, es, ss = _ax_scales(o0, s0, shape)
+        ctx.close(max(float(np.max(np.abs(o1 - o0) / cs)), float(np.max(np.abs(s1 - s0) / ss))), 10 * CAL_TOL, "rs_updown_calibration", lambda: "%s: calibration after up->down %r/%r vs %r/%r" % (what(), o1.tolist(), s1.tolist(), o0.tolist(), s0.tolist()), **fields)
         nontriv = up_shape != tuple(shape) and x.size > 1 and len(np.unique(x)) > 1
         a = x
     ctx.nontrivial(("rs_" + sub, ndim, G.parity_pattern(shape), spec["dkind"], len(axes)), bool(nontriv))
@@ -633,8 +697,8 @@ def _case_padcrop(spec, idx, ctx):
     ctx.check(ba.shape == a.shape and ba.dtype == a.dtype and np.array_equal(ba, a), "padcrop_roundtrip", lambda: "%s: crop %r %r returned shape %s" % (what(), cw, ckw, ba.shape), **fields)
     o1, s1 = _cal(back)
     if ctx.check(len(o1) == ndim and len(s1) == ndim, "padcrop_calibration_length", what, **fields):
-        cscale = float(np.max(np.abs(o0)) + np.max(np.abs(s0) * np.array(shape)))
-        ctx.close(max(float(np.max(np.abs(o1 - o0))), float(np.max(np.abs(s1 - s0)))) / cscale, 1e-12, "padcrop_calibration", lambda: "%s: calibration after pad->crop differs" % what(), **fields)
+        cs, es, ss = _ax_scales(o0, s0, shape)
+        ctx.close(max(float(np.max(np.abs(o1 - o0) / cs)), float(np.max(np.abs(s1 - s0) / ss))), CAL_TOL, "padcrop_calibration", lambda: "%s: calibration after pad->crop differs" % what(), **fields)
     ctx.nontrivial(("padcrop", ndim, G.parity_pattern(shape), spec["dkind"], len(padded_axes)), a.size > 1 and len(padded_axes) > 0)
     ctx.observe(shape=shape, dtype=dtype, output_shape=tuple(out_shape), before=before, after=after, mode=mode, crop=repr(cw), inplace=inplace)
 
@@ -888,6 +952,13 @@ def _case_big(spec, idx, ctx):
     fields = {"op": "big_" + op, "dkind": dkind, "dtype": dtype, "prec": prec, "ndim": ndim, "axes_form": "all" if axes_t is None else "subset", "inplace": inplace, "size_class": size_class}
     Dataset = ctx.state["cls"][0]
     cal = G.rand_calibration(rng, ndim, form="float_array")
+    frng = _side_rng(rng, 0xFA5)
+    far = None
+    if frng.random() < 0.5:
+        o_far, far = _far_origin(frng, cal[0], cal[1], shape)
+        cal = (o_far, cal[1], cal[2])
+    fields["far_origin"] = far is not None
+    ctx.count("far_origin:" + ("no" if far is None else "1e%d" % (3 * int(far // 3))))
     a = _big_data(rng, shape, dtype, full=not op.startswith("rs_"))
     size = int(np.prod(shape))
     if size < target or (size_class == "b24" and a.nbytes <= (1 << 24)):
@@ -983,11 +1054,11 @@ def _case_big(spec, idx, ctx):
         if not ctx.check(tuple(res.shape) == exp_shape, "bin_shape", lambda: "%s: result shape %s, expected %s" % (what(), tuple(res.shape), exp_shape), **fields):
             return
         o1, s1 = _cal(res)
-        cscale = float(np.max(np.abs(o0)) + np.max(np.abs(s0) * np.array(shape)))
+        cs, es, ss = _ax_scales(o0, s0, shape)
         exp_s = np.array([s0[i] * a2f.get(i, 1) for i in range(ndim)])
         exp_o = np.array([o0[i] + s0[i] * (a2f.get(i, 1) - 1) / 2.0 for i in range(ndim)])
-        ctx.close(float(np.max(np.abs(s1 - exp_s))) / cscale, 1e-12, "bin_sampling", lambda: "%s: sampling %r, expected %r" % (what(), s1.tolist(), exp_s.tolist()), **fields)
-        ctx.close(float(np.max(np.abs(o1 - exp_o))) / cscale, 1e-12, "bin_origin", lambda: "%s: origin %r, expected %r" % (what(), o1.tolist(), exp_o.tolist()), **fields)
+        ctx.close(float(np.max(np.abs(s1 - exp_s) / np.abs(exp_s))), CAL_TOL, "bin_sampling", lambda: "%s: sampling %r, expected %r" % (what(), s1.tolist(), exp_s.tolist()), **fields)
+        ctx.close(float(np.max(np.abs(o1 - exp_o) / cs)), CAL_TOL, "bin_origin", lambda: "%s: origin %r, expected %r" % (what(), o1.tolist(), exp_o.tolist()), **fields)
         ref = _block_sum_fast(a, a2f)
         vol = int(np.prod(factors))
         got = np.asarray(res.array)
@@ -1100,7 +1171,7 @@ def summarize(all_cases, counters, extras):
         worst = max(worst, float(e.get("rs_phase_exact_worst", 0.0)))
         n += int(e.get("rs_phase_exact_n", 0))
     return {
-        "tolerances": {"float64_paths": TOL["64"], "float32_bin_mean": TOL["32"], "float32_resample_content": TOL_RS["32"], "calibration": "1e-11..1e-12 of the coordinate scale"},
+        "tolerances": {"float64_paths": TOL["64"], "float32_bin_mean": TOL["32"], "float32_resample_content": TOL_RS["32"], "calibration": "per axis: 1e-12 of the extent / sampling, 1e-12..1e-11 of |origin| + extent for coordinates"},
         "observation_only": {
             "resample_exact_phase_vs_trig_interpolant_worst": worst,
             "n": n,
